@@ -54,6 +54,8 @@ pub enum E {
     IsNull(bool, Box<E>),
     Between(bool, Box<E>, Box<E>, Box<E>),
     InList(bool, Box<E>, Vec<E>),
+    /// CASE [operand] WHEN .. THEN .. [ELSE ..] END: operand (simple CASE) or none (searched), arms, else
+    Case(Option<Box<E>>, Vec<(E, E)>, Option<Box<E>>),
 }
 
 #[derive(Clone, Debug)]
@@ -229,6 +231,23 @@ pub fn show_expr(e: &E, out: &mut Vec<String>) {
             show_expr(a, out);
             for x in xs {
                 show_expr(x, out)
+            }
+        }
+        E::Case(x, arms, els) => {
+            out.push(format!("{}{}", if x.is_some() { "casex" } else { "case" }, arms.len()));
+            if let Some(x) = x {
+                show_expr(x, out)
+            }
+            for (c, r) in arms {
+                show_expr(c, out);
+                show_expr(r, out)
+            }
+            match els {
+                Some(e) => {
+                    out.push("else".into());
+                    show_expr(e, out)
+                }
+                None => out.push("noelse".into()),
             }
         }
     }
@@ -407,6 +426,25 @@ fn p_expr(t: &mut Toks) -> Option<E> {
             let c = p_expr(t)?;
             Some(E::Between(w == "nbtw", Box::new(a), Box::new(b), Box::new(c)))
         }
+        _ if num_after("casex", w).is_some() || num_after("case", w).is_some() => {
+            let (simple, k) = match num_after("casex", w) {
+                Some(k) => (true, k),
+                None => (false, num_after("case", w)?),
+            };
+            let x = if simple { Some(Box::new(p_expr(t)?)) } else { None };
+            let mut arms = Vec::new();
+            for _ in 0..k {
+                let c = p_expr(t)?;
+                let r = p_expr(t)?;
+                arms.push((c, r));
+            }
+            let els = match t.next()? {
+                "else" => Some(Box::new(p_expr(t)?)),
+                "noelse" => None,
+                _ => return None,
+            };
+            Some(E::Case(x, arms, els))
+        }
         _ => {
             let (neg, k) = if let Some(k) = num_after("nin", w) {
                 (true, k)
@@ -574,7 +612,7 @@ fn level(e: &E) -> u8 {
         E::Neg(..) | E::Pos(..) => 7,
         // a negative literal is written with a leading minus sign: it is a unary expression for the printer
         E::Lit(Val::Int(i)) if *i < 0 => 7,
-        E::Lit(..) | E::Col(..) => 8,
+        E::Lit(..) | E::Col(..) | E::Case(..) => 8,
     }
 }
 
@@ -633,6 +671,19 @@ pub fn sql_expr(e: &E, min: u8, col: &dyn Fn(usize) -> String) -> String {
                 _ => ("%", 6),
             };
             format!("{} {} {}", sql_expr(a, l, col), o, sql_expr(b, l + 1, col))
+        }
+        E::Case(x, arms, els) => {
+            let mut t = String::from("CASE");
+            if let Some(x) = x {
+                t += &format!(" {}", sql_expr(x, 1, col));
+            }
+            for (c, r) in arms {
+                t += &format!(" WHEN {} THEN {}", sql_expr(c, 1, col), sql_expr(r, 1, col));
+            }
+            if let Some(e) = els {
+                t += &format!(" ELSE {}", sql_expr(e, 1, col));
+            }
+            t + " END"
         }
         // `- -x` needs the blank: `--` starts a comment
         E::Neg(a) => format!("- {}", sql_expr(a, 7, col)),
@@ -1031,6 +1082,8 @@ struct Gen<'a> {
     /// pipelining (SQL leaves the evaluation order open).  So an error outcome is comparable only if at most one
     /// clause of a single-table statement can fail: every other clause is generated in safe mode.
     safe_arith: bool,
+    /// no CASE below a unary minus: the 32/64-bit kind of `- CASE …` depends on the branch taken
+    no_case: bool,
 }
 
 #[derive(Clone, Copy, PartialEq)]
@@ -1156,10 +1209,17 @@ impl<'a> Gen<'a> {
             let ty = *self.rng.pick(&[Ty::Int, Ty::BigInt]);
             return self.lit(ty, p);
         }
+        if !self.no_case && self.rng.chance(1, 9) {
+            return self.case_expr(tys, p, 'i', depth - 1);
+        }
         match self.rng.below(8) {
             0 => {
                 self.tag("op.neg");
-                E::Neg(Box::new(self.int_expr(tys, p, depth - 1)))
+                let saved = self.no_case;
+                self.no_case = true;
+                let e = self.int_expr(tys, p, depth - 1);
+                self.no_case = saved;
+                E::Neg(Box::new(e))
             }
             1 => {
                 self.tag("op.pos");
@@ -1183,7 +1243,70 @@ impl<'a> Gen<'a> {
         }
     }
 
+    /// CASE with results of kind `k` ('i' integer, 't' text, 'b' boolean): searched, simple, or the guarded division
+    fn case_expr(&mut self, tys: &[Ty], p: Profile, k: char, depth: u32) -> E {
+        let saved = self.no_case;
+        self.no_case = true; // no CASE inside CASE: keeps the texts short
+        let result = |g: &mut Self| -> E {
+            if g.rng.chance(1, 6) {
+                return E::Lit(Val::Null);
+            }
+            match k {
+                'i' => g.int_expr(tys, p, 0),
+                't' => g.text_expr(tys, p),
+                _ => {
+                    let cols = g.cols_of(tys, &[Ty::Bool]);
+                    if !cols.is_empty() && g.rng.chance(1, 2) { E::Col(*g.rng.pick(&cols)) } else { E::Lit(Val::Bool(g.rng.chance(1, 2))) }
+                }
+            }
+        };
+        let icols = self.cols_of(tys, &[Ty::Int, Ty::BigInt]);
+        let e = if k == 'i' && p != Profile::Boundary && !icols.is_empty() && self.rng.chance(1, 4) {
+            // CASE WHEN c = 0 THEN r ELSE a / c END never divides by zero: only the chosen branch is evaluated
+            self.tag("case.guarded-div");
+            let c = *self.rng.pick(&icols);
+            let op = *self.rng.pick(&["div", "mod"]);
+            let a = self.int_expr(tys, p, 0);
+            E::Case(
+                None,
+                vec![(E::Cmp("eq", Box::new(E::Col(c)), Box::new(E::Lit(Val::Int(0)))), result(self))],
+                Some(Box::new(E::Arith(op, Box::new(a), Box::new(E::Col(c))))),
+            )
+        } else if self.rng.chance(1, 3) {
+            self.tag("case.simple");
+            let tcols = self.cols_of(tys, &[Ty::Text]);
+            let text = !tcols.is_empty() && self.rng.chance(1, 3);
+            let x = if text {
+                E::Col(*self.rng.pick(&tcols))
+            } else if !icols.is_empty() {
+                E::Col(*self.rng.pick(&icols))
+            } else {
+                E::Lit(Val::Int(self.rng.range(0, 3) as i128))
+            };
+            let n = 1 + self.rng.below(3) as usize;
+            let arms = (0..n)
+                .map(|_| {
+                    let v = if text { self.lit(Ty::Text, p) } else { self.lit(Ty::Int, p) };
+                    (v, result(self))
+                })
+                .collect();
+            let els = if self.rng.chance(2, 3) { Some(Box::new(result(self))) } else { None };
+            E::Case(Some(Box::new(x)), arms, els)
+        } else {
+            self.tag("case.searched");
+            let n = 1 + self.rng.below(3) as usize;
+            let arms = (0..n).map(|_| (self.bool_expr(tys, p, depth.min(1)), result(self))).collect();
+            let els = if self.rng.chance(2, 3) { Some(Box::new(result(self))) } else { None };
+            E::Case(None, arms, els)
+        };
+        self.no_case = saved;
+        e
+    }
+
     fn text_expr(&mut self, tys: &[Ty], p: Profile) -> E {
+        if !self.no_case && self.rng.chance(1, 10) {
+            return self.case_expr(tys, p, 't', 0);
+        }
         let cols = self.cols_of(tys, &[Ty::Text]);
         if !cols.is_empty() && self.rng.chance(2, 3) {
             E::Col(*self.rng.pick(&cols))
@@ -1210,6 +1333,9 @@ impl<'a> Gen<'a> {
     }
 
     fn bool_expr(&mut self, tys: &[Ty], p: Profile, depth: u32) -> E {
+        if depth > 0 && !self.no_case && self.rng.chance(1, 12) {
+            return self.case_expr(tys, p, 'b', depth - 1);
+        }
         let k = if depth == 0 { self.rng.below(7) + 3 } else { self.rng.below(10) };
         match k {
             0 => {
@@ -1613,6 +1739,18 @@ fn expr_cols(e: &E, out: &mut Vec<usize>) {
                 expr_cols(x, out)
             }
         }
+        E::Case(x, arms, els) => {
+            if let Some(x) = x {
+                expr_cols(x, out)
+            }
+            for (c, r) in arms {
+                expr_cols(c, out);
+                expr_cols(r, out)
+            }
+            if let Some(e) = els {
+                expr_cols(e, out)
+            }
+        }
     }
 }
 
@@ -1629,6 +1767,7 @@ fn top_op(e: &E) -> &'static str {
         E::IsNull(..) => "isnull",
         E::Between(..) => "between",
         E::InList(..) => "in",
+        E::Case(..) => "case",
     }
 }
 
@@ -1664,7 +1803,7 @@ fn predicate_tags(kind: &str, e: &E, from: &From, db: &[Table], tags: &mut BTree
 }
 
 fn gen_line(rng: &mut Rng, nstmts: usize) -> Case {
-    let mut g = Gen { rng, tags: BTreeSet::new(), safe_arith: false };
+    let mut g = Gen { rng, tags: BTreeSet::new(), safe_arith: false, no_case: false };
     let (p, pname) = *g.rng.pick(&[
         (Profile::Small, "small"),
         (Profile::Small, "small"),
